@@ -62,6 +62,8 @@ pub struct HInfo {
     pub resolves: u8,
     pub dropped: bool,
     pub malformed: u8,
+    /// the shell was told FinishedMany for this request
+    pub told_finished: bool,
     pub label: u16,
     /// bridge hosts: the id this request travelled under
     pub wire: Option<u32>,
@@ -130,6 +132,9 @@ impl Checker {
             }
         }
         self.handles[h as usize].resolves += 1;
+        if observed == Some(Res::Finished) {
+            self.handles[h as usize].told_finished = true;
+        }
         self.val_handle.insert(v, h);
         self.dirty = true;
         if next.is_empty() {
@@ -370,6 +375,7 @@ impl Checker {
                 resolves: 0,
                 dropped: false,
                 malformed: 0,
+                told_finished: false,
                 label: obs.effects[i].label,
                 wire: obs.wire_ids.get(i).copied(),
             });
@@ -436,7 +442,12 @@ impl Checker {
             // bridge: answering under an id that has meanwhile been handed to a newer request is
             // shell misuse ("the id MUST match"), not a late response
             let id_reused = hi.wire.map_or(false, |w| self.handles[h as usize + 1..].iter().any(|o| o.wire == Some(w)));
-            let allowed = if late {
+            // bridge: once the shell has been told FinishedMany the bridge forgets the request; a
+            // further response under that id is misuse (documented panic), not a late response
+            let forgotten = !self.host.can_drop() && hi.told_finished;
+            let allowed = if forgotten {
+                false
+            } else if late {
                 !id_reused && self.late_used < b.max_late && hi.resolves < b.items_per_stream + 1
             } else {
                 hi.kind == Kind::Once || hi.resolves < b.items_per_stream
